@@ -1239,7 +1239,13 @@ class IMAPClientCommand:
         # Is this a list? If so, parse our list of flags.
         #
         if self._p_simple_string("(", silent=True, swallow=False):
-            return self._p_paren_list_of(self._p_fetch_att)
+            fetch_atts = self._p_paren_list_of(self._p_fetch_att)
+            # "(" fetch-att *(SP fetch-att) ")": there is at least one. (We
+            # would answer with `* n FETCH ()`, which is no response either.)
+            #
+            if not fetch_atts:
+                raise BadSyntax(value="empty list of fetch attributes")
+            return fetch_atts
         else:
             # See if we have one of the three defined fetch att macros.
             # If we do we will just by hand create our list of fetch atts
